@@ -215,9 +215,9 @@ fn packet(i: &[u8]) -> nom::IResult<&[u8], (u8, Packet)> {
             nom::multi::fold_many0(
                 fullpacket,
                 || (0, None),
-                |(seq, pkt): (_, Option<Packet>), (nseq, p)| {
+                |(seq, pkt): (u8, Option<Packet>), (nseq, p)| {
                     let pkt = if let Some(mut pkt) = pkt {
-                        assert_eq!(nseq, seq + 1);
+                        assert_eq!(nseq, seq.wrapping_add(1));
                         pkt.extend(p);
                         Some(pkt)
                     } else {
@@ -231,7 +231,7 @@ fn packet(i: &[u8]) -> nom::IResult<&[u8], (u8, Packet)> {
         move |(full, last)| {
             let seq = last.0;
             let pkt = if let Some(mut pkt) = full.1 {
-                assert_eq!(last.0, full.0 + 1);
+                assert_eq!(last.0, full.0.wrapping_add(1));
                 pkt.extend(last.1);
                 pkt
             } else {
